@@ -44,6 +44,7 @@ type mEntry struct {
 	Tomb   bool          // deleted by a useful answer (kept for diagnosis)
 	Ever   bool          // was recorded at least once
 	Seeded bool          // planted by the harness through the exported FailureCache API
+	Resets int           // useful answers that reset this entry so far
 }
 
 type model struct {
@@ -108,10 +109,11 @@ type cover struct {
 	exactActive    bool
 	// the covering entry that expired last (largest remaining envelope), for
 	// the signature of an envelope violation
-	tightK     int
-	tightOver  time.Duration // elapsed - bound (>= 0 when surely expired)
-	tightKind  string
-	tightBound time.Duration
+	tightK      int
+	tightOver   time.Duration // elapsed - bound (>= 0 when surely expired)
+	tightKind   string
+	tightBound  time.Duration
+	tightResets int // useful answers that had reset that entry before its current streak
 }
 
 func (m *model) covering(k qkey, now time.Time) cover {
@@ -144,7 +146,7 @@ func (m *model) covering(k qkey, now time.Time) cover {
 		}
 		if first || over < c.tightOver {
 			first = false
-			c.tightK, c.tightOver, c.tightKind, c.tightBound = e.K, over, kind, b
+			c.tightK, c.tightOver, c.tightKind, c.tightBound, c.tightResets = e.K, over, kind, b, e.Resets
 		}
 	}
 	consider(m.q[k], "question", "")
@@ -194,12 +196,14 @@ func (m *model) useful(k qkey) (reset int) {
 	if e := m.q[k]; e != nil && !e.Tomb {
 		e.Tomb = true
 		e.K = 0
+		e.Resets++
 		reset++
 	}
 	for _, z := range zonesOf(k.Name) {
 		if e := m.z[zkey{z, k.Qclass}]; e != nil && !e.Tomb {
 			e.Tomb = true
 			e.K = 0
+			e.Resets++
 			reset++
 		}
 	}
